@@ -8,4 +8,7 @@ CHECKS = {
  'C14': dict(files=['C14_symmetry.cpp'],
    explanation='Expression text for both operand orders is parsed by the real lexer/grammar/ExpressionBuilder in a document with variables of every operand class of the property, then typed by the real TypeChecker::checkExpression. Symbolic (eagerly forked) inputs: operator among the 11 commutative ones, both operand forms from a 24-entry pool (identifiers, constants and small expressions of int, bounded int, bool, double, clock, clock difference, scalar, struct, array, channel, string); inline-if c?a:b vs !c?b:a over the same pool; reference parameters T& / const T& against arguments of 11 types in both roles. Oracle: verdict and result type kind must be equal for the two orders.',
    assumptions=['operand forms are the 24 listed in the harness; nesting deeper than one operator inside an operand is outside the claim']),
+ 'C10': dict(files=['C10_convex.cpp'],
+   explanation='A formula tree over the connectives &&, ||, !, imply, xor, ==, !=, forall, exists and leaves {integer predicate, clock bound, clock difference bound, boolean} is chosen symbolically, rendered fully parenthesised, placed as the guard of an edge or the invariant of a location of a whole-file XTA model, and pushed through the real lexer, grammar, DocumentBuilder and TypeChecker (visitEdge/visitLocation/checkExpression). Oracle convex(f) is written from the property statement. Assertions: accepted => convex(f); pure conjunction of atoms => accepted.',
+   assumptions=['formula depth and leaf pool as stated per harness; quantifier domain int[0,1]; acceptance = no error diagnostic after parse + TypeChecker (warnings ignored)']),
 }
